@@ -2,6 +2,8 @@ package expr
 
 import (
 	"fmt"
+	"math"
+	"strconv"
 	"strings"
 )
 
@@ -120,6 +122,10 @@ func renderList(e *Expression, verbose bool) string {
 			strs = append(strs, fmt.Sprintf("%#v", v.Left))
 			continue
 		}
+		if f, isFloat := v.Left.(float64); isFloat {
+			strs = append(strs, FormatFloat(f))
+			continue
+		}
 		strs = append(strs, fmt.Sprintf("%v", v.Left))
 	}
 
@@ -140,5 +146,21 @@ func renderLiteral(e *Expression, verbose bool) string {
 		return fmt.Sprintf(`"%s"`, s)
 	}
 
+	// print floats the way they are written to json so a whole number prints the same
+	// whether it is held as a float or, after a json round trip, as an int
+	if f, isFloat := e.Left.(float64); isFloat {
+		return FormatFloat(f)
+	}
+
 	return fmt.Sprintf("%v", e.Left)
+}
+
+// FormatFloat formats a float with the shortest decimal that represents it exactly, switching
+// to the exponent form only for very small and very large numbers (the same rule encoding/json uses).
+func FormatFloat(f float64) string {
+	abs := math.Abs(f)
+	if abs != 0 && (abs < 1e-6 || abs >= 1e21) {
+		return strconv.FormatFloat(f, 'e', -1, 64)
+	}
+	return strconv.FormatFloat(f, 'f', -1, 64)
 }
